@@ -57,10 +57,45 @@ def _atom(e: ast.expr) -> str:
     return canon(e)
 
 
+def _hoist_ifexp(e: ast.expr) -> ast.expr | None:
+    """`a - (d if c else 0)` == `(a - d) if c else a`: a conditional term of a sum is hoisted to the
+    top so that both spellings have one normal form."""
+    found: list[ast.IfExp] = []
+
+    def spine(x: ast.expr) -> None:
+        if isinstance(x, ast.BinOp) and isinstance(x.op, (ast.Add, ast.Sub)):
+            spine(x.left)
+            spine(x.right)
+        elif isinstance(x, ast.UnaryOp) and isinstance(x.op, (ast.USub, ast.UAdd)):
+            spine(x.operand)
+        elif isinstance(x, ast.IfExp):
+            found.append(x)
+
+    spine(e)
+    if not found:
+        return None
+    target = found[0]
+
+    def subst(x: ast.expr, arm: ast.expr) -> ast.expr:
+        if x is target:
+            return clone(arm)
+        if isinstance(x, ast.BinOp) and isinstance(x.op, (ast.Add, ast.Sub)):
+            return ast.BinOp(left=subst(x.left, arm), op=x.op, right=subst(x.right, arm))
+        if isinstance(x, ast.UnaryOp) and isinstance(x.op, (ast.USub, ast.UAdd)):
+            return ast.UnaryOp(op=x.op, operand=subst(x.operand, arm))
+        return x
+
+    return ast.fix_missing_locations(ast.IfExp(test=target.test, body=subst(e, target.body), orelse=subst(e, target.orelse)))
+
+
 def canon(e: ast.expr) -> str:
     if isinstance(e, ast.Call):
         args = ", ".join([canon(a) for a in e.args] + [f"{k.arg}={canon(k.value)}" for k in e.keywords])
         return f"{canon(e.func)}({args})"
+    if (isinstance(e, ast.BinOp) and isinstance(e.op, (ast.Add, ast.Sub))) or (isinstance(e, ast.UnaryOp) and isinstance(e.op, ast.USub)):
+        h = _hoist_ifexp(e)
+        if h is not None:
+            return canon(h)
     if isinstance(e, ast.BinOp) and isinstance(e.op, (ast.Add, ast.Sub, ast.Mult)) or (isinstance(e, ast.UnaryOp) and isinstance(e.op, (ast.USub, ast.UAdd))) or (isinstance(e, ast.Constant) and isinstance(e.value, (int, float)) and not isinstance(e.value, bool)):
         return lin_str(linear(e, _atom, _size_rewrite))
     if isinstance(e, (ast.BinOp, ast.UnaryOp)):
@@ -73,7 +108,20 @@ def canon(e: ast.expr) -> str:
     if isinstance(e, ast.Subscript):
         return f"{canon(e.value)}[{canon(e.slice)}]" if not isinstance(e.slice, ast.Slice) else src(e)
     if isinstance(e, ast.IfExp):
-        return f"({canon(e.body)} if {canon(e.test)} else {canon(e.orelse)})"
+        # one spelling per condition: `A if not c else B` == `B if c else A`; `x != y` and a
+        # remainder compared with 0 are turned to their positive form the same way
+        test, body, orelse = e.test, e.body, e.orelse
+        flipped = True
+        while flipped:
+            flipped = False
+            if isinstance(test, ast.UnaryOp) and isinstance(test.op, ast.Not):
+                test, body, orelse, flipped = test.operand, orelse, body, True
+            elif isinstance(test, ast.Compare) and len(test.ops) == 1 and isinstance(test.ops[0], (ast.NotEq, ast.IsNot, ast.NotIn)):
+                pos = {ast.NotEq: ast.Eq, ast.IsNot: ast.Is, ast.NotIn: ast.In}[type(test.ops[0])]()
+                test, body, orelse, flipped = ast.Compare(left=test.left, ops=[pos], comparators=test.comparators), orelse, body, True
+            elif isinstance(test, ast.Compare) and len(test.ops) == 1 and isinstance(test.ops[0], ast.Eq) and isinstance(test.comparators[0], ast.Constant) and test.comparators[0].value == 0 and isinstance(test.left, ast.BinOp) and isinstance(test.left.op, ast.Mod):
+                test, body, orelse, flipped = test.left, orelse, body, True  # `i % 2 == 0` is `not i % 2`
+        return f"({canon(body)} if {canon(test)} else {canon(orelse)})"
     if isinstance(e, ast.Compare) and len(e.ops) == 1:
         from ..norm import facts
 
@@ -572,7 +620,7 @@ def _map_touches(prog: Program, report: Report) -> None:
     if missing:
         # a local of that name exists on one side only: renamed or inlined, not comparable by name
         report.errors.append(f"RSIB: StepMap._map and touches no longer share the locals {missing}: the pair cannot be compared (found 0 time(s) on one side)")
-        keys = tuple(k for k in keys if k not in missing)
+        return  # the other fields are defined through the missing ones: nothing is comparable
     bad = [k for k in keys if fa.get(k) != fb.get(k)]
     if bad:
         report.violate("RSIB", b, b.node, f"StepMap._map and touches disagree on {bad}", f"both scan the ranges with the same skeleton; they differ in {[(k, fa.get(k), fb.get(k)) for k in bad]}", witness=[a.key, b.key], what="_map ~ touches scan skeleton")
